@@ -68,6 +68,33 @@ Verdict check_approx(const TGraph &t, const std::string &algo, std::size_t k, co
     if (!v.ok()) return v;
     double sum = cycles_weight(t, idx);
     if (ret != sum) return {"returned-weight", "returned " + std::to_string(ret) + " but the emitted cycles weigh " + std::to_string(sum) + " under the caller's weights"};
+#ifdef PARMCB_VERIF
+    // K18b (carrier contract of the ratio, as used by the published proof): the cycle emitted for a dropped edge e=(u,v)
+    // is e plus a u-v path of RETAINED edges whose weight is at most (2k-1)*w(e) - such a path exists by K17 (stretch),
+    // and a weight-shortest path in the final spanner is never heavier.  The dropped set is read through hook H1 from a
+    // second, identical construction of the spanner.
+    {
+        typedef BG<W> B; typedef typename B::Graph G; typedef typename B::WeightMap WM;
+        B bg2(t);
+        struct Dummy { W operator()(const G&, const WM&, int) { return W(); } };
+        WM wm2 = bg2.weights();
+        auto imap2 = boost::get(boost::vertex_index, bg2.g);
+        parmcb::detail::BaseApproxSpannerAlgorithm<G, WM, Dummy, false> sp(bg2.g, wm2, imap2, k);
+        std::vector<char> dropped(t.m(), 0);
+        for (auto &e : sp.verif_non_spanner_edges()) { int i = bg2.idx(e); if (i >= 0) dropped[i] = 1; }
+        for (int i = 0; i < t.m(); i++) if (dropped[i]) {
+            int holder = -1, count = 0;
+            for (size_t c = 0; c < idx.size(); c++) for (int x : idx[c]) if (x == i) { holder = (int) c; count++; }
+            if (count != 1) continue;           // a different decomposition of the basis: nothing to say here
+            bool other_dropped = false; double path = 0;
+            for (int x : idx[holder]) if (x != i) { if (dropped[x]) other_dropped = true; path += t.w[x]; }
+            if (other_dropped) continue;
+            if (path > (2.0 * k - 1.0) * t.w[i] * (1 + 1e-12))
+                return {"nonspanner-cycle-stretch", "the cycle closing dropped edge " + std::to_string(i) + " (weight " + std::to_string(t.w[i]) + ") uses a spanner path of weight " +
+                        std::to_string(path) + " > (2k-1)*w(e) for k=" + std::to_string(k)};
+        }
+    }
+#endif
     if (opt.ok) {
         if (sum < opt.weight) return {"approx-below-optimum", "impossible: basis lighter than the optimum (oracle/weights inconsistent)"};
         if (sum > (2.0 * k - 1.0) * opt.weight) return {"approx-ratio", "weight " + std::to_string(sum) + " exceeds (2k-1)*OPT = " + std::to_string((2.0 * k - 1.0) * opt.weight) + " for k=" + std::to_string(k)};
